@@ -110,6 +110,7 @@ def liftCk {α} (s : Eng) (x : Except String α) : M α :=
 def writeDatabasePage (s : Eng) (pgno : Nat) (data : ByteArray) : M Eng := do
   ensure s (¬ (s.pageSize = 0)) (.panic "panic assertion failed: page size required")
   ensure s (¬ (data.size ≠ s.pageSize)) .err
+  ensure s (¬ (pgno = 0)) .err        -- `WriteAt` at offset `(0 - 1) * pageSize`: negative offset
   let f := s.dbFile.getD ByteArray.empty
   let f := writeAt f ((pgno - 1) * s.pageSize) data
   let s := { s with dbFile := some f }
